@@ -529,6 +529,7 @@ func (d *drv) runEip712(r *Rng, n int) {
 		// every field of the document, by reflection over the protobuf messages / the legacy structs
 		d.pbFieldSweep(rr, pbFields, pbStats, protoDoc, baseP, sig, pub, signer, tag)
 		d.aminoKeySweep(rr, aminoKeys, aminoStats, aminoDoc, baseA, sig, pub, tag)
+		d.aminoJSONLevelSweep(rr, aminoDoc, baseA, sig, pub, tag)
 
 		// ... and for no perturbed document.
 		check := func(field, how string, a2, p2 []byte) {
